@@ -156,6 +156,9 @@ def run(ck):
             sgen = make(sgz)
             ck.case(fp=('generic-box', str(sgz)), nontrivial=True)
             witness_check(ck, sgen, 'generic', {'z': [str(w) for w in sgz]}, n=1024)
+    # the identities that entitle the placement families to their oracle (differences, determinant ratios, squared lengths, extreme coordinates), for all integers
+    ck.apalache('MC_Placement', 'Inv')
+    ck.apalache('MC_Placement', 'Wrong', expect_error=True)
     # derived objects (rotated / scaled / translated / reversed / cropped copies of every kind of segment, and of a path) have the box of *their* curve,
     # whatever the original had been asked before; far from the origin and in small units too
     dpool = [sp.Line(0j, 3 + 4j), sp.QuadraticBezier(3 + 4j, 8 + 9j, 5 + 0j), sp.CubicBezier(5 + 0j, 1 - 6j, 9 - 6j, 6 + 1j), sp.Arc(6 + 1j, 3 + 2j, 30, True, False, 2 + 2j),
